@@ -2,3 +2,4 @@ import Hive
 import Audit.C11
 import Audit.C20
 import Audit.C15
+import Audit.C12
